@@ -665,6 +665,11 @@ func genC07(r *Rng) *Scenario {
 			for j := 0; j < k; j++ {
 				op.Subs = append(op.Subs, SubReq{fmt.Sprintf("f%d/%d", i, j), byte(r.IntN(3))})
 			}
+			if k > 1 && r.chance(0.25) {
+				// the same filter named twice in one call: the SUBSCRIBE packet carries
+				// it twice and the SUBACK owes one return code per entry
+				op.Subs[k-1].Filter = op.Subs[0].Filter
+			}
 			ri.kind, ri.nsub = "sub", k
 		case 3:
 			op.Kind, op.Topics = "unsubscribe", []string{fmt.Sprintf("f%d", i)}
@@ -1253,7 +1258,12 @@ func genC15(r *Rng) *Scenario {
 	cfg := &sc.Cfg
 	cfg.HoldAcks = true
 	cfg.LatC2BUs, cfg.LatB2CUs = 50, 50
-	switch r.IntN(7) {
+	switch r.IntN(8) {
+	case 5:
+		// a counter far above 16 bits whose low half is small: the identifiers
+		// start just above zero, and any "normalisation" of the counter must not
+		// make them start over while the first ones are outstanding
+		cfg.InitIDs = []uint32{uint32(r.between(1, 0xFFFE))<<16 | uint32(r.IntN(24))}
 	case 0:
 		cfg.InitIDs = []uint32{0xFFFF - uint32(r.IntN(30))}
 	case 1:
